@@ -565,7 +565,7 @@ func main() {
 		{{1, 1.35}, {1, 1.75}, {1.5, 1.75}, {1.5, 1.35}, {1, 1.35}},         // crosses the left edge of the general box
 		{{1.625, 1.3}, {1.625, 1.4}, {1.9, 1.4}, {1.9, 1.3}, {1.625, 1.3}},  // inside
 	}
-	r.Explore("polygons", "5 outer rings (one around the whole box, taken with the hole that crosses the box) x every subset of 3 holes that lie inside the outer ring x both orientations, general-position box: region = outer minus holes, holes that stay inside are attached to the polygon that contains them; multi-polygon with a second polygon", mc.Opts{MaxDev: -1}, func(c *mc.Ctx) {
+	r.Explore("polygons", "5 outer rings (one around the whole box, taken with the hole that crosses the box) x every subset of 3 holes that lie inside the outer ring x both orientations, general-position box: region = outer minus holes, holes that stay inside are attached to the polygon that contains them; multi-polygon with a second polygon (for the surrounding ring: an island inside the crossing hole, in both member orders)", mc.Opts{MaxDev: -1}, func(c *mc.Ctx) {
 		oi := c.Choose(len(outers))
 		outer := outers[oi].Clone()
 		o := orb.CCW
@@ -653,6 +653,23 @@ func main() {
 			// the same polygon as the only member of a multi-polygon, and through the generic entry point
 			if gm := smartclip.MultiPolygon(gbox, orb.MultiPolygon{poly.Clone()}, o); !refgeom.Equal(gm, got) {
 				c.Failf("multi:single-member", "smartclip.MultiPolygon of the polygon alone = %v, smartclip.Polygon gives %v | %s", gm, got, desc)
+			}
+			// and with an island inside the crossing hole that the box cuts as well: the surrounding polygon's outer ring
+			// never reaches the box, the island's does - the hole still has to be clipped out of the box
+			island := orb.Ring{{1.1, 1.45}, {1.4, 1.45}, {1.4, 1.65}, {1.1, 1.65}, {1.1, 1.45}}
+			if o == orb.CW {
+				island.Reverse()
+			}
+			for order := 0; order < 2; order++ {
+				mp := orb.MultiPolygon{poly.Clone(), {island.Clone()}}
+				if order == 1 {
+					mp[0], mp[1] = mp[1], mp[0]
+				}
+				in := mp.Clone()
+				gm := smartclip.MultiPolygon(gbox, mp, o)
+				validate(c, func(s string) string { return "multi:island:" + s }, gbox, gm, o, func(q qpt) bool {
+					return inOrig(q) || inFloat(island, q.f)
+				}, fmt.Sprintf("box=%v orientation=%d multipolygon=%v result=%v", gbox, o, in, gm))
 			}
 		}
 		if oi < 3 {
